@@ -199,6 +199,25 @@ def run_driver(driver, lines, timeout=600):
     return p.stdout.splitlines()
 
 
+def drivers_of(mod):
+    return list(getattr(mod, "DRIVERS", None) or ([mod.DRIVER] if mod.DRIVER else []))
+
+
+def model_obs_mod(mod, scenarios):
+    """model observations; a module may route scenarios to different drivers with `driver_for(sc)`"""
+    pick = getattr(mod, "driver_for", lambda sc: mod.DRIVER)
+    groups = {}
+    for i, sc in enumerate(scenarios):
+        groups.setdefault(pick(sc), []).append(i)
+    res = [None] * len(scenarios)
+    for drv, idxs in groups.items():
+        if drv is None:
+            continue
+        for i, o in zip(idxs, model_obs(drv, [scenarios[i] for i in idxs])):
+            res[i] = o
+    return res
+
+
 def model_obs(driver, scenarios):
     all_lines = []
     for sc in scenarios:
@@ -359,7 +378,9 @@ def compare(mod, sc_lines, meta):
     """run one scenario on impl and model; returns (impl_obs, model_obs, first_diff_index or None)"""
     sc = Scenario(sc_lines, meta)
     obs = guarded_impl(mod, sc)
-    mobs = model_obs(mod.DRIVER, [sc])[0]
+    mobs = model_obs_mod(mod, [sc])[0]
+    if mobs is None:
+        return obs, None, None
     diff = next((i for i in range(len(sc_lines)) if i >= len(obs) or obs[i] != mobs[i]), None)
     if diff is None and len(obs) != len(sc_lines):
         diff = len(sc_lines)
@@ -435,7 +456,7 @@ def _main(ctx, args):
             gen_changed |= write_if_changed(os.path.join(LEAN, rel), content)
 
     # 2. proof obligations
-    ok, out = lake_build(list(mod.LEAN_MODULES) + [mod.DRIVER] if mod.DRIVER else list(mod.LEAN_MODULES))
+    ok, out = lake_build(list(mod.LEAN_MODULES) + drivers_of(mod))
     build_broken = None
     if not ok:
         # was it the generated part (tied to the source) or our own files?
@@ -475,7 +496,7 @@ def _main(ctx, args):
     good = [r for r in records if not r[3]]
 
     scenarios = [Scenario(l, m) for (l, m, _, _) in good]
-    mobs = model_obs(mod.DRIVER, scenarios) if (mod.DRIVER and not build_broken) else [None] * len(good)
+    mobs = model_obs_mod(mod, scenarios) if (drivers_of(mod) and not build_broken) else [None] * len(good)
 
     disagreements, failures = [], []
     seen, nontrivial, hist = set(), 0, {}
@@ -538,7 +559,7 @@ def _main(ctx, args):
         ctx.violation("impl-counterexample", {
             "kind": "impl-counterexample", "oracle_clause": [c for c in mod.oracle(sc, sobs)] or [clause],
             "ops": small, "meta": meta, "impl_observations": sobs,
-            "model_observations": model_obs(mod.DRIVER, [sc])[0] if (mod.DRIVER and not build_broken) else None,
+            "model_observations": model_obs_mod(mod, [sc])[0] if (drivers_of(mod) and not build_broken) else None,
             "other_failures": len(unknown_fail) - 1})
     elif disagreements or build_broken or aud["problems"]:
         # the tie or a proof obligation broke, the oracle found nothing so far: search harder
@@ -577,7 +598,7 @@ def _main(ctx, args):
                 except Exception:
                     sobs, smo, sd = obs, mo, d
                 payload.update({
-                    "theorem_or_stream": payload["theorem_or_stream"] or f"correspondence stream of {prop} (implementation vs Lean model {mod.DRIVER})",
+                    "theorem_or_stream": payload["theorem_or_stream"] or f"correspondence stream of {prop} (implementation vs Lean model {drivers_of(mod)})",
                     "ops": small, "meta": meta, "first_diff_line": sd, "impl_observations": sobs,
                     "model_observations": smo, "disagreeing_scenarios": len(disagreements)})
             ctx.violation("broken-tie", payload, no_input=True)
@@ -642,7 +663,7 @@ def _replay(ctx, path):
         return 1
     sc = Scenario(lines, data.get("meta") or {})
     obs = guarded_impl(mod, sc)
-    mo = model_obs(mod.DRIVER, [sc])[0] if mod.DRIVER else None
+    mo = model_obs_mod(mod, [sc])[0] if drivers_of(mod) else None
     cl = mod.oracle(sc, obs)
     for i, l in enumerate(lines):
         mark = "" if mo is None or (i < len(obs) and obs[i] == mo[i]) else "   <-- differs"
